@@ -122,6 +122,9 @@ func genLintFile(g *G, o lintOpts) []byte {
 		add("BS_:")
 	}
 	nodes := []string{"ECU1", "ECU2", "Gateway"}
+	if g.R.Intn(4) == 0 {
+		nodes = append(nodes, "Ecu1") // near miss of a duplicate node name
+	}
 	if o.n("missing-bu") == 0 {
 		l := "BU_: " + strings.Join(nodes, " ")
 		for i := 0; i < o.n("dup-node"); i++ {
@@ -161,6 +164,9 @@ func genLintFile(g *G, o lintOpts) []byte {
 		id := 100 + m
 		if m > 0 && use("dup-msgid") {
 			id = 100
+		} else if m > 0 && g.R.Intn(3) == 0 {
+			// near miss of a duplicate ID: the same number in the other ID format
+			id = (100 + g.R.Intn(m)) | 0x80000000
 		}
 		name := fmt.Sprintf("Message%d", m)
 		if use("message-name") {
@@ -171,11 +177,14 @@ func genLintFile(g *G, o lintOpts) []byte {
 			tx = "Ghost"
 		}
 		size := 8
+		if g.R.Intn(3) == 0 {
+			size = 2 + g.R.Intn(6)
+		}
 		add(fmt.Sprintf("BO_ %d %s: %d %s", id, name, size, tx))
 		nSig := 1 + g.R.Intn(4)
 		bit := 0
 		hasMux := false
-		for s := 0; s < nSig && bit < 56; s++ {
+		for s := 0; s < nSig && bit < 8*size-8; s++ {
 			sname := fmt.Sprintf("Signal%d", s)
 			ln := 2 + g.R.Intn(6)
 			unit := ""
@@ -202,7 +211,10 @@ func genLintFile(g *G, o lintOpts) []byte {
 			case use("undeclared-rx"):
 				recv = "Ghost"
 			case use("start-oob"):
-				start = 64 + g.R.Intn(100)
+				start = 8*size + g.R.Intn(100)
+				if g.R.Bool() {
+					start = 8 * size // the first position outside
+				}
 			case use("two-mux"):
 				add(fmt.Sprintf(" SG_ MuxA%d M : %d|2@1+ (1,0) [0|0] \"\" %s", s, bit, node()))
 				bit += 2
@@ -235,6 +247,24 @@ func genLintFile(g *G, o lintOpts) []byte {
 				case 4:
 					ln = 1
 					vals = append(vals, fmt.Sprintf("VAL_ %d %s 0 \"Off\" 1 \"On\" ;", id, sname))
+				case 5:
+					// near misses: equal bounds, a name that only resembles a reserved one, the last bit of the message
+					switch g.R.Intn(4) {
+					case 0:
+						mn, mx = g.R.Pick("3", "-5", "0.5"), ""
+						mx = mn
+					case 1:
+						sname = g.R.Pick("ReserveTank", "PreReserved", "Reserve") + fmt.Sprint(s)
+					case 2:
+						ln = 1
+						start = 8*size - 1
+						sname = "IsLast" + fmt.Sprint(s)
+						bit -= ln
+					case 3:
+						if hasMux {
+							mux = fmt.Sprintf(" m%d", g.R.Intn(4)) // every value a 2-bit switch can take
+						}
+					}
 				}
 			}
 			add(fmt.Sprintf(" SG_ %s%s : %d|%d@1%s (1,0) [%s|%s] \"%s\" %s", sname, mux, start, ln, sign, mn, mx, unit, recv))
